@@ -42,6 +42,7 @@ ASSUMPTIONS = [
     "Valet.reqs is an odict subclass that remembers removed Requestants so that `errored` can be read after the Valet dropped the connection",
     "sys.stderr is redirected to a sink while the Valet runs (it writes parse errors there)",
     "a connection that was closed is accepted when its request was marked errored, or when it had been answered and was not persistent (HTTP/1.0 / Connection: close)",
+    "client status-line family: `HTTP/1.1 c0c1c2 OK`, each status character independently from the listed classes (kept digit, 0xB2 0xB3 0xB9 0xBD, + - space x, nothing, 0 9); a status token containing a non ASCII-digit character (or no token) counts as malformed and must be recorded as an errored response",
     "client: one request outstanding, the mutated response arrives in one receive (thorough: also in two), then the peer closes; the Patron is not reconnectable",
 ]
 LEVEL_NOTE = "selector-symbolic: solver proves the bounded mutation space (kind x position x byte class) was exhausted; each path is a concrete run of the real Valet / Patron over socket doubles"
@@ -264,6 +265,47 @@ def h_client(sym, base, kinds, alpha, split):
     return True
 
 
+# malformed status line family: each of the three status-code characters is drawn independently
+STATUS_Q = [None, b"\xb2", b"\xb3", b"\xb9", b"\xbd", b"+", b"-", b" ", b"x", b"", b"0", b"9"]   # None = keep
+STATUS_T = STATUS_Q + [b"\xbc", b"\xbe", b"\t", b".", b"e"]
+STATUS_BASE = (b"2", b"0", b"0")
+
+
+def h_status(sym, alpha):
+    """Client: `HTTP/1.1 c0c1c2 OK` + valid headers/body, every status character from the class
+    alphabet (digit-like non-ASCII bytes, signs, space, letter, nothing, digits).  Same oracle as
+    the other malformed responses; in addition a status token with a character that is not an
+    ASCII digit (or no status token at all) must end up as a recorded errored response."""
+    chars = []
+    for i in range(3):
+        c = alpha[sym.choice("status_char%d" % i, len(alpha))]
+        chars.append(STATUS_BASE[i] if c is None else c)
+    with untraced(sym):
+        line = b"HTTP/1.1 " + b"".join(chars) + b" OK"
+        bad = line + b"\r\nServer: s\r\nContent-Length: 3\r\n\r\nabc"
+        got = _run_patron(bad, len(bad))
+        where = "status-line=%r" % line
+        if got["exc"] is not None:
+            sym.check(got["stage"] != "setup", "C32/harness/client-setup-raised", got["exc"][1])
+            sym.fail("C32/client/serviceAll-raises/" + got["exc"][0], "%s (%s) | %s" % (got["exc"][1], got["stage"], where))
+        sym.check(got["sent"].startswith(b"GET /x HTTP/1.1\r\n"), "C32/harness/client-request-not-sent", repr(got["sent"]))
+        tokens = line.split()
+        token = tokens[1] if len(tokens) > 1 else b""
+        malformed = not token or any(ch not in b"0123456789" for ch in token)
+        recorded = bool(got["responses"]) and bool(got["responses"][-1]["errored"]) and got["responses"][-1]["error"] is not None
+        if got["rsp_errored"]:
+            sym.check(recorded, "C32/client/parse-error-not-recorded-in-response", "%r | %s" % (got["responses"], where))
+        if malformed:
+            sym.check(recorded, "C32/client/malformed-status-not-recorded-as-error",
+                      "token=%r responses=%r waited=%r | %s" % (token, got["responses"], got["waited"], where))
+            sym.cover("malformed-status-recorded")
+        if recorded:
+            sym.cover("error-recorded")
+        elif got["responses"]:
+            sym.cover("response-recorded")
+    return True
+
+
 # ---------------------------------------------------------------- obligations
 def obligations(tier):
     quick = tier == "quick"
@@ -296,6 +338,12 @@ def obligations(tier):
     srv("server/chunkext", "chunkext", kinds=["replace", "none"], alpha=ALPHA_S, orders=("AB",))
     for base in ("fixed", "chunked", "close"):
         cli("client/%s" % base, base, covers=("response-recorded", "error-recorded", "waits"))
+    st = STATUS_Q if quick else STATUS_T
+    out.append(Ob("client/status-line", h_status, dict(alpha=list(st)), budget=900 if quick else 6000,
+                  covers=["malformed-status-recorded", "error-recorded", "response-recorded"],
+                  bounds=dict(side="client", response="HTTP/1.1 c0c1c2 OK + Server/Content-Length headers + 3 byte body",
+                              status_char_classes=["keep" if x is None else x.decode("latin-1").encode("unicode_escape").decode() for x in st],
+                              positions="all three status characters independently", then="peer closes")))
     # event stream: no response record is made for an evented response, only "never raises" applies
     cli("client/sse", "sse", kinds=["replace", "truncate", "none"] if quick else KINDS)
     if not quick:
